@@ -170,11 +170,18 @@ def monitor(am, engine, cx, events, snaps):
                     # (invoke ids may be reused by other states: the event is matched by id only, so any of them can be its origin)
                     queued_before_exit = any(t0 + i2.dur <= tl for n2 in am.nodes for i2 in n2.invoke if i2.iid == inv.iid
                                              for t0, tl in earlier.get(n2.idx, []))
+                    # ... and finding F19 explains it if a transition was rolled back earlier in the run: the services started by
+                    # the states it had entered are not cancelled by the rollback (no `leave` is ever recorded for them) and
+                    # their results arrive later, matched by id only
+                    rolled_back = any(x[0] == "err" for x in log[:i_])
+                    sig = dict(kind="stale-completion", cause="done-invoke-matched-by-src-and-type-only") if queued_before_exit else \
+                        (dict(kind="leaked-task", cause="rollback-leaves-tasks-of-entered-states") if rolled_back else None)
                     out.append(("the completion of service %s (takes %d ms) was handled at t=%d although its state %d was (re-)entered at "
                                 "t=%d: the result belongs to an earlier activation%s"
                                 % (inv.iid, inv.dur, now, owner, t_enter,
-                                   "" if queued_before_exit else " that was still running when it was exited (exit cancels the service)"),
-                                dict(kind="stale-completion", cause="done-invoke-matched-by-src-and-type-only") if queued_before_exit else None))
+                                   "" if queued_before_exit else (" of a state entered by a transition that was rolled back" if rolled_back else
+                                                                  " that was still running when it was exited (exit cancels the service)")),
+                                sig))
     if must_fail is not None and snaps[-1]["status"] == 1 and not any(o[0] == "err" for o in log):
         out.append(("service %s of state %d failed and its invoke declares no onError, but the machine is still running: an unhandled "
                     "service failure must put the machine into the error status" % (must_fail[1], must_fail[0]), None))
